@@ -102,8 +102,16 @@ func (cache *StorageCache) Save(root common.Hash) error {
 
 // updateTrie writes cached storage modifications into storage trie.
 func (cache *StorageCache) Update(root common.Hash) (common.Hash, error) {
-	if root == (common.Hash{}) && len(cache.dirty) == 0 {
-		return common.Hash{}, nil
+	if root == (common.Hash{}) {
+		// There is no trie yet, so there is nothing to delete. Do not create an empty trie for that. Its root is not the zero hash, and nobody can reproduce it by redoing the change logs because writing nothing is not a change
+		for key, value := range cache.dirty {
+			if len(bytes.TrimLeft(value, "\x00")) == 0 {
+				delete(cache.dirty, key)
+			}
+		}
+		if len(cache.dirty) == 0 {
+			return common.Hash{}, nil
+		}
 	}
 
 	tr, err := cache.GetTrie(root)
